@@ -212,8 +212,9 @@ def rule_owned(R):
         fl = dict(zip(agg[0][4], agg[0][5]))
         def fallible(t, src):
             t = peel(t)
-            return t[0] == "ok" and is_call(peel(t[1]), "map_err") and any(
-                (is_call(x, "try_into", "try_from", "transpose") and True) for x in walk(t[1]) if x[0] == "call") and \
+            r = roles.ok_payload_source(t)   # the Result whose Ok payload is stored (through `?`, match, map_err)
+            return r is not None and is_call(r, "try_into", "try_from", "transpose") and \
+                any(is_call(x, "try_into", "try_from") for x in walk(r) if x[0] == "call") and \
                 any(x[0] == "field" and x[2] == src for x in walk(t))
         ok = fallible(fl["topic"], "topic") and fallible(fl["correlation_data"], "correlation_data")
     R.ob("owned/fallible", ok and conv >= 1,
